@@ -170,6 +170,15 @@ class Gen:
             seen.add(t.py); ts.append(t)
         if len(ts) < 2: return self.g_optional(d)
         return Node("union", ["union", [t.lean for t in ts]], f"Union[{', '.join(t.py for t in ts)}]", ts)
+    def g_tuple_union(self, d):
+        """union of fixed-length tuples told apart by their length, the longer one holding an element that needs conversion"""
+        prim = [self.rnd.choice([self.g_int, self.g_str, self.g_bool])(0) for _ in range(self.rnd.randint(1, 2))]
+        conv = self.rnd.choice([self.g_enum, self.g_dataclass])(1)
+        short = Node("tuple", ["tuple", [t.lean for t in prim]], f"Tuple[{', '.join(t.py for t in prim)}]", prim)
+        longer = prim + [conv]
+        long_ = Node("tuple", ["tuple", [t.lean for t in longer]], f"Tuple[{', '.join(t.py for t in longer)}]", longer)
+        ts = [short, long_] if self.rnd.random() < 0.7 else [long_, short]
+        return Node("union", ["union", [t.lean for t in ts]], f"Union[{', '.join(t.py for t in ts)}]", ts)
     def g_newtype(self, d):
         t = self.ty(d - 1)
         while t.kind == "none": t = self.ty(d - 1)      # NewType of None: finding 31, kept in the corpus only
@@ -201,6 +210,9 @@ class Gen:
                             t = Node("optional", ["union", [t.lean, ["none"]]], f"Optional[{t.py}]", [t])
                         f["ty"] = t
                     f["dflt"], f["dflt_src"] = ["n"], "None"
+            if kind == "typeddict" and self.rnd.random() < 0.3 and t.kind not in ("none", "optional", "any", "union"):
+                # Optional keys of a TypedDict: what exclude_none can omit
+                f["ty"] = Node("optional", ["union", [t.lean, ["none"]]], f"Optional[{t.py}]", [t])
             if kind == "dataclass":
                 if self.rnd.random() < 0.3: f["alias"] = nm.upper() + "_al"
                 if not req and self.rnd.random() < 0.25: f["fbod"] = True
